@@ -537,7 +537,173 @@ def frag_stepcount(src):
                               dict(ty, start_step="Int"), "Flt",
                               ["start_time", "dt", "start_step", "step"], helpers)
     out.append(t)
+    out.append(_sc_tebd_compute_steps(src))
+    out.append(_sc_resolve_num_steps(src))
     return "\n".join(out)
+
+
+def _sc_int_expr(node, env, where):
+    """integer expression over the entry state of PtTebd.compute"""
+    if isinstance(node, ast.Constant) and isinstance(node.value, int) and not isinstance(node.value, bool):
+        return "(%d : Int)" % node.value
+    if isinstance(node, ast.Name):
+        if node.id in env:
+            return env[node.id]
+        raise Untranslatable("%s: unknown name %s" % (where, node.id))
+    ch = attr_chain(node)
+    if ch in (["self", "step"], ["self", "_step"]):
+        return env["self.step"]
+    if ch in (["self", "_start_step"], ["self", "start_step"]):
+        return "start_step"
+    if isinstance(node, ast.BinOp) and isinstance(node.op, (ast.Add, ast.Sub, ast.Mult)):
+        sym = {ast.Add: "+", ast.Sub: "-", ast.Mult: "*"}[type(node.op)]
+        return "(%s %s %s)" % (_sc_int_expr(node.left, env, where), sym,
+                               _sc_int_expr(node.right, env, where))
+    if isinstance(node, ast.Call) and isinstance(node.func, ast.Name) and not node.keywords:
+        if node.func.id in ("max", "min") and len(node.args) == 2:
+            return "(%s %s %s)" % (node.func.id, _sc_int_expr(node.args[0], env, where),
+                                   _sc_int_expr(node.args[1], env, where))
+        if node.func.id == "int" and len(node.args) == 1:
+            return _sc_int_expr(node.args[0], env, where)
+    raise Untranslatable("%s: cannot read the integer expression %s" % (where, ast.unparse(node)))
+
+
+def _sc_tebd_compute_steps(src):
+    """Number of `compute_step()` calls made by `PtTebd.compute(end_step)` as a function of the
+    constructor's start step, the current step on entry (after the initialise-if-fresh) and the
+    requested end step."""
+    rel, qual = "oqupy/pt_tebd.py", "PtTebd.compute"
+    fn = src.function(rel, qual, raw=True)
+    env = {"end_step": "end_step", "self.step": "cur"}
+    counts = []
+
+    def is_step_call(st):
+        return isinstance(st, ast.Expr) and isinstance(st.value, ast.Call) \
+            and attr_chain(st.value.func) == ["self", "compute_step"]
+
+    def harmless(st):
+        if isinstance(st, ast.Expr) and isinstance(st.value, ast.Constant):
+            return True
+        if isinstance(st, ast.Expr) and isinstance(st.value, ast.Call):
+            ch = attr_chain(st.value.func)
+            return bool(ch) and ch[0] in ("prog_bar", "progress")
+        return False
+
+    def loop_body(body, where):
+        n = sum(1 for st in body if is_step_call(st))
+        if n != 1 or any(not (is_step_call(st) or harmless(st)) for st in body):
+            raise Untranslatable("%s: loop body is not one compute_step() call plus progress "
+                                 "reports" % where)
+
+    def visit(stmts):
+        for st in stmts:
+            text = ast.unparse(st).replace("\n", " ")
+            if harmless(st) or isinstance(st, ast.Return):
+                continue
+            if isinstance(st, ast.Try):
+                if len(st.body) == 1 and isinstance(st.body[0], ast.Assign) and not st.finalbody \
+                        and not st.orelse and all(
+                            len(h.body) == 1 and isinstance(h.body[0], ast.Raise) for h in st.handlers):
+                    visit(st.body)
+                    continue
+                raise Untranslatable(qual + ": unexpected try block: " + text[:80])
+            if isinstance(st, ast.If):
+                if text.replace(" ", "") == "ifself.stepisNone:self.initialize()":
+                    continue
+                raise Untranslatable(qual + ": unexpected branch: " + text[:80])
+            if isinstance(st, ast.Assign) and len(st.targets) == 1 and isinstance(st.targets[0], ast.Name):
+                name = st.targets[0].id
+                if name in ("progress", "title", "prog_bar"):
+                    continue
+                env[name] = _sc_int_expr(st.value, env, qual)
+                continue
+            if isinstance(st, ast.With):
+                visit(st.body)
+                continue
+            if isinstance(st, ast.While):
+                t = st.test
+                if not (isinstance(t, ast.Compare) and len(t.ops) == 1 and isinstance(t.ops[0], ast.Lt)
+                        and attr_chain(t.left) in (["self", "step"], ["self", "_step"])) or st.orelse:
+                    raise Untranslatable(qual + ": while test is not `self.step < bound`: " + text[:80])
+                loop_body(st.body, qual)
+                bound = _sc_int_expr(t.comparators[0], env, qual)
+                counts.append("(max 0 (%s - cur))" % bound)
+                continue
+            if isinstance(st, ast.For):
+                it = st.iter
+                if not (isinstance(it, ast.Call) and isinstance(it.func, ast.Name)
+                        and it.func.id == "range" and len(it.args) == 1 and not st.orelse):
+                    raise Untranslatable(qual + ": for loop is not over range(n): " + text[:80])
+                loop_body(st.body, qual)
+                counts.append("(max 0 %s)" % _sc_int_expr(it.args[0], env, qual))
+                continue
+            raise Untranslatable(qual + ": unexpected statement: " + text[:80])
+
+    visit(fn.body)
+    if len(counts) != 1:
+        raise Untranslatable(qual + ": expected exactly one stepping loop, found %d" % len(counts))
+    return ("/-- %s:%d  %s: number of `compute_step()` calls, from the constructor's start step, "
+            "the current step on entry and the requested `end_step` -/\n"
+            "def tebd_compute_steps (start_step : Int) (cur : Int) (end_step : Int) : Int :=\n"
+            "  let _unused := (start_step, cur, end_step)\n  %s\n"
+            % (rel, fn.lineno, qual, counts[0]))
+
+
+def _sc_resolve_num_steps(src):
+    """How `_compute_dynamics_input_parse` (shared by compute_dynamics,
+    compute_dynamics_with_field and compute_gradient_and_dynamics) turns the caller's `num_steps`
+    (possibly None) and the length of the shortest finite process tensor (possibly none) into the
+    number of steps taken."""
+    rel, qual = "oqupy/system_dynamics.py", "_compute_dynamics_input_parse"
+    fn = src.function(rel, qual)
+    for api_rel, api in (("oqupy/system_dynamics.py", "compute_dynamics"),
+                         ("oqupy/gradient.py", "compute_gradient_and_dynamics")):
+        text = ast.unparse(src.function(api_rel, api))
+        if "_compute_dynamics_input_parse(False," not in text:
+            raise Untranslatable("%s does not parse its input with %s" % (api, qual))
+    if "_compute_dynamics_input_parse(True," not in ast.unparse(
+            src.function("oqupy/system_dynamics.py", "compute_dynamics_with_field")):
+        raise Untranslatable("compute_dynamics_with_field does not parse its input with " + qual)
+    hits = [st for st in fn.body if isinstance(st, ast.If)
+            and any(isinstance(n, ast.Name) and n.id == "num_steps" for n in ast.walk(st.test))]
+    if len(hits) != 1:
+        raise Untranslatable(qual + ": expected one branch on num_steps, found %d" % len(hits))
+    st = hits[0]
+    t = st.test
+    given = "given"          # `num_steps is not None`
+    if isinstance(t, ast.Compare) and len(t.ops) == 1 and isinstance(t.left, ast.Name) \
+            and t.left.id == "num_steps" and isinstance(t.comparators[0], ast.Constant) \
+            and t.comparators[0].value is None and isinstance(t.ops[0], (ast.IsNot, ast.Is)):
+        cond = "ns.isSome" if isinstance(t.ops[0], ast.IsNot) else "ns.isNone"
+    elif isinstance(t, ast.Name) and t.id == "num_steps":
+        cond = "(ns.isSome && ns != some 0)"        # Python truthiness of an int-or-None
+    elif isinstance(t, ast.UnaryOp) and isinstance(t.op, ast.Not) and isinstance(t.operand, ast.Name) \
+            and t.operand.id == "num_steps":
+        cond = "!(ns.isSome && ns != some 0)"
+    else:
+        raise Untranslatable(qual + ": cannot read the test on num_steps: " + ast.unparse(t))
+
+    def branch(stmts):
+        texts = [" ".join(ast.unparse(s).split()) for s in stmts]
+        if len(texts) == 2 and texts[0] == "num_steps = check_convert(num_steps, int, 'num_steps')" \
+                and texts[1].startswith("check_true(num_steps <= max_step,"):
+            return ("match ns with\n      | some n => (match maxStep with\n"
+                    "          | some m => if n <= m then .ok n else .error \"too-long\"\n"
+                    "          | none => .ok n)\n      | none => .error \"type\"")
+        if len(texts) == 2 and texts[0].startswith("check_true(max_step < np.inf,") \
+                and texts[1] == "num_steps = int(max_step)":
+            return ("match maxStep with\n      | some m => .ok m\n"
+                    "      | none => .error \"unspecified\"")
+        raise Untranslatable(qual + ": unexpected num_steps branch: " + " ; ".join(texts)[:160])
+
+    ms = src.assignment(fn, "max_step")
+    if len(ms) != 1 or " ".join(ast.unparse(ms[0].value).split()) != "np.min(max_steps + [np.inf])":
+        raise Untranslatable(qual + ": max_step is not np.min(max_steps + [np.inf])")
+    return ("/-- %s:%d  %s: the steps taken, from the caller's `num_steps` (`none` = not given) and "
+            "the length of the shortest finite process tensor (`none` = no finite one) -/\n"
+            "def cd_resolve_num_steps (ns : Option Int) (maxStep : Option Int) : Except String Int :=\n"
+            "  if %s then\n    %s\n  else\n    %s\n"
+            % (rel, st.lineno, qual, cond, branch(st.body), branch(st.orelse)))
 
 
 # ---------------------------------------------------------------------------
@@ -920,6 +1086,28 @@ def _cc_cd_loop(src, out):
     idx, loop = loops[0]
     if norm(loop.target) != "step" or norm(loop.iter) != "range(num_steps + 1)" or loop.orelse:
         raise Untranslatable("compute_dynamics: loop header " + norm(loop.iter))
+    # everything before the loop: straight-line preparation, no early exit for any num_steps
+    # (so the loop runs for every N >= 0, in particular once for N = 0)
+    prelude = [
+        "parsed_parameters = _compute_dynamics_input_parse(False, system, initial_state, dt, "
+        "num_steps, start_time, process_tensor, control, record_all)",
+        "system, initial_state, dt, num_steps, start_time, process_tensors, control, record_all, "
+        "hs_dim = parsed_parameters",
+        "num_envs = len(process_tensors)",
+        "propagators = system.get_propagators(dt, start_time, subdiv_limit, liouvillian_epsrel)",
+        "def controls(step: int): return control.get_controls(step, dt=dt, start_time=start_time)",
+        "initial_ndarray = initial_state.reshape(hs_dim ** 2)",
+        "initial_ndarray.shape = tuple([1] * num_envs + [hs_dim ** 2])",
+        "current_node = tn.Node(initial_ndarray)",
+        "current_edges = current_node[:]",
+        "states = []",
+    ]
+    got = [norm(s) for s in _cc_strip(fn.body[:idx])
+           if not norm(s).startswith(("title = ", "prog_bar = get_progress(", "prog_bar.enter()"))]
+    if got != prelude:
+        bad = [g for g in got if g not in prelude] or ["(statements missing or reordered)"]
+        raise Untranslatable("compute_dynamics: unexpected statement before the step loop: "
+                             + bad[0][:140])
     sysop = "current_node, current_edges = _apply_system_superoperator(current_node, current_edges, %s)"
     simple = {
         "pre_measurement_control, post_measurement_control = controls(step)": "getControls",
@@ -962,6 +1150,9 @@ def _cc_cd_loop(src, out):
     out.append("/-- compute_dynamics, after the loop: the state is read out once more with the caps of "
                "the loop variable's last value and appended -/\n"
                "def cdAfterLoop : List LoopOp := [.recordFinal]\n")
+    out.append("/-- compute_dynamics: between input parsing and the step loop there is only straight-line "
+               "preparation (no early return), so the loop body runs for every num_steps >= 0 -/\n"
+               "def cdLoopRunsForEveryN : Bool := true\n")
 
 
 def _cc_tebd(src, out):
@@ -979,6 +1170,43 @@ def _cc_tebd(src, out):
         layer: "nnLayers",
         "self._t_mps.apply_process_tensors(self.step, self._process_tensors)": "applyPTs",
     }
+    # object lifetime: PtTebd keeps a REFERENCE to the ChainControl and looks controls up when a
+    # step is taken; no attribute may cache anything derived from the chain control
+    cls = src.function(rel, "PtTebd")
+    for node in ast.walk(cls):
+        if isinstance(node, (ast.Assign, ast.AugAssign, ast.AnnAssign)):
+            tgts = node.targets if isinstance(node, ast.Assign) else [node.target]
+            val = node.value
+            if val is None:
+                continue
+            mentions = any((isinstance(n, ast.Name) and n.id == "chain_control") or
+                           (isinstance(n, ast.Attribute) and n.attr in ("_chain_control", "chain_control"))
+                           for n in ast.walk(val))
+            for t in tgts:
+                tt = norm(t)
+                if mentions and tt.startswith("self.") and tt != "self._chain_control":
+                    raise Untranslatable("PtTebd caches a property of the chain control in %s "
+                                         "(line %d): controls added later would not be seen"
+                                         % (tt, node.lineno))
+                if tt == "self._chain_control" and norm(val) not in (
+                        "chain_control", "ChainControl(hilbert_space_dimensions=self._system_chain.hs_dims)",
+                        "ChainControl(hilbert_space_dimensions=hs_dims)"):
+                    raise Untranslatable("PtTebd stores %s as its chain control (a copy / derived "
+                                         "object would miss later additions)" % norm(val)[:80])
+    reads = [n for n in ast.walk(cls) if isinstance(n, ast.Attribute) and n.attr == "_chain_control"
+             and isinstance(n.ctx, ast.Load)]
+    where = set()
+    for m in cls.body:
+        if isinstance(m, ast.FunctionDef):
+            if any(r in list(ast.walk(m)) for r in reads):
+                where.add(m.name)
+    if not where <= {"_apply_controls", "chain_control"}:
+        raise Untranslatable("PtTebd reads self._chain_control outside _apply_controls / the "
+                             "chain_control property: %s" % sorted(where))
+    out.append("/-- %s: PtTebd assigns self._chain_control only the object it is given (or a fresh "
+               "empty ChainControl), derives no other attribute from it, and reads it only in "
+               "_apply_controls (at the moment a step is taken) and in the chain_control property -/\n"
+               "def tebdControlByReference : Bool := true\n" % rel)
     for qual, name in (("PtTebd.initialize", "tebdInitialize"), ("PtTebd.compute_step", "tebdComputeStep")):
         fn = src.function(rel, qual)
         tags = []
@@ -1505,8 +1733,10 @@ inductive MicroOp where
   /-- start / end of a `try` block whose handler restores the tensor networks saved
       immediately before the block and re-raises; `catchAll` = the handler catches every
       `BaseException` (`except BaseException:` or a bare `except:`), `false` for a narrower
-      class such as `except Exception:` -/
-  | tryBegin (catchAll : Bool)
+      class such as `except Exception:`; `exact` = what is saved are full copies of every
+      network attribute the step changes and the handler puts exactly these copies back (no
+      reconstruction from partial information such as a length) -/
+  | tryBegin (catchAll : Bool) (exact : Bool)
   | tryEnd
   /-- the temporary traces of the chain state are (re)computed / read / discarded -/
   | traceCompute
@@ -1954,7 +2184,7 @@ class OrderExtractor:
             for p in paths:
                 if not p.ops or p.ops[-1] != ("saveNet",):
                     self.fail(s, "try block is not immediately preceded by saving the networks")
-                p.ops[-1] = ("tryBegin", catch_all)
+                p.ops[-1] = ("tryBegin", catch_all, bool(getattr(self, "snapshot_exact", False)))
                 res = self.stmts(s.body, [p])
                 for r in res:
                     if r.done:
@@ -1993,7 +2223,7 @@ def _lean_op(o):
     if t == "control":
         return ".control %s %s" % ("true" if o[1] else "false", aff(o[2]))
     if t == "tryBegin":
-        return ".tryBegin %s" % ("true" if o[1] else "false")
+        return ".tryBegin %s %s" % ("true" if o[1] else "false", "true" if o[2] else "false")
     return "." + t
 
 
@@ -2018,6 +2248,59 @@ class SaveAwareExtractor(OrderExtractor):
                     p.ops.append(("saveNet",))
                 return paths
         return super().stmt(s, paths)
+
+
+def _body_without_doc(fn):
+    body = list(fn.body)
+    if body and isinstance(body[0], ast.Expr) and isinstance(body[0].value, ast.Constant) \
+            and isinstance(body[0].value.value, str):
+        body = body[1:]
+    return body
+
+
+def _snapshot_exact(src, rel, cls, step_method="compute_system_step"):
+    """Do `copy_networks` / `restore_networks` of `cls` save and put back FULL COPIES of every
+    `self.<attr>` that `step_method` assigns or changes in place?
+
+      copy_networks    :  return self.a.copy(), self.b.copy(), ...
+      restore_networks :  self.a, self.b, ... = <its parameter>
+
+    Anything else (a length, a slice, a reconstruction in the handler) -> False."""
+    step = src.function(rel, cls + "." + step_method)
+    changed = set()
+    for n in ast.walk(step):
+        if isinstance(n, (ast.Assign, ast.AugAssign)):
+            tgts = n.targets if isinstance(n, ast.Assign) else [n.target]
+            for t in tgts:
+                for x in ([t] if not isinstance(t, (ast.Tuple, ast.List)) else t.elts):
+                    base = x.value if isinstance(x, ast.Subscript) else x
+                    ch = attr_chain(base)
+                    if ch and len(ch) == 2 and ch[0] == "self":
+                        changed.add(ch[1])
+        if isinstance(n, ast.Call):
+            ch = attr_chain(n.func)
+            if ch and len(ch) == 3 and ch[0] == "self" and ch[2] != "copy":
+                changed.add(ch[1])
+    cp = _body_without_doc(src.function(rel, cls + ".copy_networks"))
+    if len(cp) != 1 or not isinstance(cp[0], ast.Return) or not isinstance(cp[0].value, ast.Tuple):
+        return False
+    saved = []
+    for e in cp[0].value.elts:
+        ch = attr_chain(e.func) if isinstance(e, ast.Call) and not e.args and not e.keywords else None
+        if not (ch and len(ch) == 3 and ch[0] == "self" and ch[2] == "copy"):
+            return False
+        saved.append(ch[1])
+    if len(set(saved)) != len(saved) or not changed <= set(saved):
+        return False
+    rfn = src.function(rel, cls + ".restore_networks")
+    params = [a.arg for a in rfn.args.args if a.arg != "self"]
+    rs = _body_without_doc(rfn)
+    if len(params) != 1 or len(rs) != 1 or not isinstance(rs[0], ast.Assign) \
+            or len(rs[0].targets) != 1 or not isinstance(rs[0].targets[0], ast.Tuple) \
+            or not (isinstance(rs[0].value, ast.Name) and rs[0].value.id == params[0]):
+        return False
+    restored = [attr_chain(t) for t in rs[0].targets[0].elts]
+    return restored == [["self", a] for a in saved]
 
 
 def _single(paths, what):
@@ -2100,8 +2383,12 @@ def frag_looporder(src):
                      backend_lists={"_backend_list"},
                      pure=PURE_COMMON, pure_methods=PURE_METHODS_COMMON)
     fn = src.function(TB, "MeanFieldTempoBackend.compute_step")
-    ops = _single(SaveAwareExtractor(spec, "MeanFieldTempoBackend.compute_step").run(fn),
-                  "MeanFieldTempoBackend.compute_step")
+    ex = SaveAwareExtractor(spec, "MeanFieldTempoBackend.compute_step")
+    try:
+        ex.snapshot_exact = _snapshot_exact(src, TB, "BaseTempoBackend")
+    except Untranslatable:
+        ex.snapshot_exact = False          # no copy_networks/restore_networks pair
+    ops = _single(ex.run(fn), "MeanFieldTempoBackend.compute_step")
     emit_ops("mft_compute_step", ops,
              "%s:%d  MeanFieldTempoBackend.compute_step; user callables: 0 = "
              "self._compute_field_derivative (field_eom), 1 = the propagators of each system "
@@ -2404,6 +2691,24 @@ structure ArraySite where
   /-- rank of the user array on this path (0: any rank) -/
   rank : Nat
   ops : List AOp
+  deriving DecidableEq, Repr
+
+/-- what a method keeps, on its object, that was derived from a caller-owned mutable argument
+    (a parameter table), and how a later call recognises "the same argument":
+    `none` nothing is kept; `content` by the argument's values (bytes / element-wise
+    comparison with a private copy); `identity` by `is` / `id()` / a stored reference -/
+inductive ArgKeyKind where
+  | none | content | identity
+  deriving DecidableEq, Repr
+
+structure ArgStore where
+  file : String
+  func : String
+  param : String
+  line : Nat
+  kind : ArgKeyKind
+  /-- attributes of `self` the method assigns -/
+  stores : List String
   deriving DecidableEq, Repr
 '''
 
@@ -3176,6 +3481,123 @@ def _c20_array_sites(src):
     return sites, notes
 
 
+# ---- results kept per object that derive from a caller-owned table -----------
+#
+# Grammar: every function of C20_ARG_ENTRIES is searched (nested defs and lambdas included) for
+#   stores   self.X = ..   self.X[..] = ..   self.X op= ..   self.X.update/append/setdefault/..(..)
+#            `global` / `nonlocal` statements, memoising decorators.
+# No store, no decorator -> `none`.  Otherwise the way the argument P is recognised again:
+#   identity  `P is ..` / `.. is P` / `is not`, `id(P)`, or a plain reference `self.X = P`
+#   content   P.tobytes() / P.tolist() / tuple(..P..) / hash(..P..) / np.array_equal(P, ..) /
+#             np.array(P) / P.copy() / np.copy(P) stored for an element-wise comparison
+# identity evidence wins; stores without either -> Untranslatable.
+
+C20_ARG_ENTRIES = [
+    ("oqupy/system.py", "ParameterizedSystem.liouvillian", "parameters"),
+    ("oqupy/system.py", "ParameterizedSystem.get_propagators", "parameters"),
+    ("oqupy/system.py", "ParameterizedSystem.halfstep_propagator_derivative", None),
+    ("oqupy/system.py", "ParameterizedSystem.get_propagator_derivatives", "parameters"),
+    ("oqupy/gradient.py", "state_gradient", "parameters"),
+    ("oqupy/gradient.py", "compute_gradient_and_dynamics", "parameters"),
+    ("oqupy/gradient.py", "_chain_rule", None),
+]
+
+_C20_MUTATORS = ("update", "append", "setdefault", "extend", "insert", "pop", "clear",
+                 "__setitem__", "add")
+
+
+def _c20_arg_store(src, rel, qual, param):
+    fn = src.function(rel, qual)
+    names = [a.arg for a in fn.args.args] + ([fn.args.vararg.arg] if fn.args.vararg else [])
+    if param is not None and param not in names:
+        raise Untranslatable("%s:%s has no parameter %s" % (rel, qual, param))
+    stores, ident, content, memo = [], [], [], []
+    for d in fn.decorator_list:
+        if _is_lru_cache(d) or (isinstance(d, ast.Name) and "cache" in d.id.lower()):
+            memo.append(ast.unparse(d))
+
+    # local names bound to (parts of) attributes of self:  computed = self._store
+    alias = {}
+    for n in ast.walk(fn):
+        if isinstance(n, ast.Assign) and len(n.targets) == 1 and isinstance(n.targets[0], ast.Name):
+            e = n.value
+            while isinstance(e, (ast.Subscript, ast.Attribute, ast.Call)):
+                if isinstance(e, ast.Attribute) and isinstance(e.value, ast.Name) \
+                        and e.value.id == "self":
+                    alias[n.targets[0].id] = e.attr
+                    break
+                e = e.func if isinstance(e, ast.Call) else e.value
+
+    def self_attr(e):
+        top = e
+        while isinstance(e, (ast.Subscript, ast.Attribute)):
+            if isinstance(e, ast.Attribute) and isinstance(e.value, ast.Name) and e.value.id == "self":
+                return e.attr
+            e = e.value
+        if isinstance(e, ast.Name) and e.id in alias and e is not top:
+            return alias[e.id]
+        return None
+
+    def mentions(e):
+        return param is not None and any(isinstance(n, ast.Name) and n.id == param
+                                         for n in ast.walk(e))
+    for n in ast.walk(fn):
+        if isinstance(n, (ast.Global, ast.Nonlocal)):
+            stores.append("%s %s" % (type(n).__name__.lower(), ",".join(n.names)))
+        if isinstance(n, (ast.Assign, ast.AugAssign, ast.AnnAssign)):
+            tgts = n.targets if isinstance(n, ast.Assign) else [n.target]
+            for t in tgts:
+                for el in (t.elts if isinstance(t, ast.Tuple) else [t]):
+                    a = self_attr(el)
+                    if a is not None:
+                        if a not in stores:
+                            stores.append(a)
+                        v = getattr(n, "value", None)
+                        if v is not None and isinstance(v, ast.Name) and v.id == param:
+                            ident.append("line %d: self.%s = %s" % (n.lineno, a, param))
+                        elif v is not None and mentions(v) and isinstance(v, ast.Call) and \
+                                ast.unparse(v.func) in ("np.array", "np.copy", param + ".copy",
+                                                        "copy", "deepcopy", "np.asarray"):
+                            if ast.unparse(v.func) == "np.asarray":
+                                ident.append("line %d: self.%s = np.asarray(%s)" % (n.lineno, a, param))
+                            else:
+                                content.append("line %d: private copy self.%s" % (n.lineno, a))
+        if isinstance(n, ast.Call) and isinstance(n.func, ast.Attribute) \
+                and n.func.attr in _C20_MUTATORS:
+            a = self_attr(n.func.value)
+            if a is not None and a not in stores:
+                stores.append(a)
+        if isinstance(n, ast.Compare) and any(isinstance(o, (ast.Is, ast.IsNot)) for o in n.ops):
+            sides = [n.left] + list(n.comparators)
+            if any(isinstance(x, ast.Name) and x.id == param for x in sides) and not any(
+                    isinstance(x, ast.Constant) and x.value is None for x in sides):
+                ident.append("line %d: %s" % (n.lineno, ast.unparse(n)))
+        if isinstance(n, ast.Call) and isinstance(n.func, ast.Name) and n.func.id == "id" \
+                and n.args and mentions(n.args[0]):
+            ident.append("line %d: %s" % (n.lineno, ast.unparse(n)))
+        if isinstance(n, ast.Call) and mentions(n):
+            f = ast.unparse(n.func)
+            if f in (str(param) + ".tobytes", str(param) + ".tolist", "np.array_equal",
+                     "np.array_equiv", "hash", "tuple") and (f.startswith(str(param)) or
+                                                             any(mentions(a) for a in n.args)):
+                content.append("line %d: %s" % (n.lineno, ast.unparse(n)[:60]))
+    if memo:
+        # functools caches hash their arguments: an ndarray is refused, a list/tuple of floats is
+        # keyed by value, any other object by identity -- not decidable here
+        raise Untranslatable("%s:%s is memoised (%s) on caller-owned arguments"
+                             % (rel, qual, ", ".join(memo)))
+    if ident:
+        kind = "identity"
+    elif not stores:
+        kind = "none"
+    elif content:
+        kind = "content"
+    else:
+        raise Untranslatable("%s:%s assigns %s; cannot read how `%s` is recognised again"
+                             % (rel, qual, ", ".join(stores), param))
+    return (rel, qual, param or "-", fn.lineno, kind, stores, ident + content)
+
+
 @fragment("CacheKeys")
 def frag_cachekeys(src):
     out = [C20_TYPES]
@@ -3208,6 +3630,14 @@ def frag_cachekeys(src):
             % (_lstr(f), _lstr(q), _lstr(p), l, r, _llist(ops)) for f, q, p, l, r, ops in asites]
     out.append("/-- what the anchored code does with user arrays -/\n"
                "def arraySites : List ArraySite := [\n%s\n]\n" % ",\n".join(arow))
+    srow = []
+    for rel, qual, param in C20_ARG_ENTRIES:
+        r, q, pm, line, kind, stores, why = _c20_arg_store(src, rel, qual, param)
+        srow.append("  { file := %s, func := %s, param := %s, line := %d, kind := .%s, stores := %s }"
+                    % (_lstr(r), _lstr(q), _lstr(pm), line, kind, _llist(map(_lstr, stores))))
+        notes += ["%s:%s %s" % (r, q, w) for w in why]
+    out.append("/-- what the parameterised system and the gradient functions keep from one call to "
+               "the next -/\ndef argStores : List ArgStore := [\n%s\n]\n" % ",\n".join(srow))
     if notes:
         out.append("/- notes\n%s\n-/\n" % "\n".join("  " + n for n in notes))
     return "\n".join(out)
@@ -4130,6 +4560,69 @@ def _ff_pttempo_unwind(src, out):
                % ("; found in " + ", ".join(where) if where else "", ", ".join(found)))
 
 
+def _ff_is_writing_target(t):
+    return isinstance(t, ast.Subscript) and isinstance(t.slice, ast.Constant) and \
+        t.slice.value == "writing" and isinstance(t.value, ast.Attribute) and t.value.attr == "attrs"
+
+
+def _ff_writing_assignments(src, out):
+    """every assignment to <x>.attrs['writing'] in oqupy/process_tensor.py"""
+    tree = src.tree(FF_REL)
+    found = []
+
+    def visit(node, qual):
+        for ch in ast.iter_child_nodes(node):
+            if isinstance(ch, (ast.FunctionDef, ast.ClassDef)):
+                visit(ch, ch.name)
+                continue
+            targets = []
+            if isinstance(ch, ast.Assign):
+                targets = ch.targets
+            elif isinstance(ch, (ast.AugAssign, ast.AnnAssign)):
+                targets = [ch.target]
+            for t in targets:
+                if _ff_is_writing_target(t):
+                    v = _ff_const_bool(getattr(ch, "value", None))
+                    if v is None:
+                        raise Untranslatable("%s: attrs['writing'] assigned a non-constant" % qual)
+                    found.append((qual, v, ch.lineno))
+            if isinstance(ch, ast.Call) and isinstance(ch.func, ast.Attribute) and \
+                    ch.func.attr in ("update", "modify", "create", "__setitem__") and \
+                    isinstance(ch.func.value, ast.Attribute) and ch.func.value.attr == "attrs":
+                raise Untranslatable("%s: attrs.%s(...) call" % (qual, ch.func.attr))
+            visit(ch, qual)
+    visit(tree, "<module>")
+    out.append("/-- %s: every assignment to attrs['writing'] (function, constant; lines %s) -/\n"
+               "def writingAssignments : List (String × Bool) := [%s]\n"
+               % (FF_REL, ", ".join(str(l) for _, _, l in found),
+                  ", ".join("(%s, %s)" % (_ff_lean_str(q), v) for q, v, _ in found)))
+
+
+def _ff_compute_caps_tail(src, out):
+    fn = src.function(FF_REL, "FileProcessTensor.compute_caps")
+    body = _ff_body(fn)
+    last_cap = -1
+    for i, st in enumerate(body):
+        if any(isinstance(n, ast.Call) and isinstance(n.func, ast.Attribute) and
+               n.func.attr == "set_cap_tensor" for n in ast.walk(st)):
+            last_cap = i
+    tail = []
+    for i, st in enumerate(body):
+        attr_writes = [n for n in ast.walk(st) if isinstance(n, (ast.Assign, ast.AugAssign)) and
+                       any(isinstance(t, ast.Subscript) and isinstance(t.value, ast.Attribute)
+                           and t.value.attr == "attrs"
+                           for t in (n.targets if isinstance(n, ast.Assign) else [n.target]))]
+        if not attr_writes:
+            continue
+        if i <= last_cap or len(attr_writes) != 1 or attr_writes[0] is not st or \
+                not _ff_is_writing_target(st.targets[0]) or _ff_const_bool(st.value) is None:
+            raise Untranslatable("compute_caps(): attribute write %s" % ast.unparse(st))
+        tail.append(_ff_const_bool(st.value))
+    out.append("/-- %s:%d  FileProcessTensor.compute_caps: values assigned to attrs['writing'] after "
+               "the last cap write -/\ndef computeCapsTail : List Bool := [%s]\n"
+               % (FF_REL, fn.lineno, ", ".join(tail)))
+
+
 EXTRA_IMPORTS["FileFlags"] = "import OQuPyVerif.Model.PTFile\n"
 
 
@@ -4151,6 +4644,8 @@ def frag_fileflags(src):
     _ff_pt_init(src, out, "PtTempo._init_file_process_tensor", "ptTempoFileInit",
                 "FileProcessTensor")
     _ff_pttempo_unwind(src, out)
+    _ff_writing_assignments(src, out)
+    _ff_compute_caps_tail(src, out)
     out.append("/-- everything above as one record (the model is a function of it) -/\n"
                "def flags : Flags :=\n"
                "  { readWarn := readWarn, closeReset := closeReset, closeValue := closeValue,\n"
@@ -4161,7 +4656,8 @@ def frag_fileflags(src):
                "    simpleSetInitial := simpleSetInitial, ptTempoChoice := ptTempoChoice,\n"
                "    ptTempoMode := ptTempoMode, nameSetter := nameSetter, descrSetter := descrSetter,\n"
                "    ptTempoSimpleInit := ptTempoSimpleInit, ptTempoFileInit := ptTempoFileInit,\n"
-               "    exportUnwind := exportUnwind, ptTempoUnwind := ptTempoUnwind }\n")
+               "    exportUnwind := exportUnwind, ptTempoUnwind := ptTempoUnwind,\n"
+               "    writingAssignments := writingAssignments, computeCapsTail := computeCapsTail }\n")
     return "\n".join(out)
 # end of FileFlags
 
@@ -4753,6 +5249,8 @@ TE_KEYWORDS = {"start_time": "T", "end_time": "T", "dt": "D"}
 TE_KEYWORDS_OF = {"quad_vec": {"a": "T", "b": "T"}}
 # functions whose return value is a time / an invariant
 TE_RETURNS = {"_time": "T", "time": "T", "_linearised_field": "D"}
+# helpers that must see times only through collected expressions
+TE_STRICT_FUNCTIONS = {"get_number_of_steps", "_time", "_linearised_field"}
 # calls that hand their first argument through unchanged (conversions / validation)
 TE_PASSTHROUGH = {"float", "check_convert", "_check_time", "_parse_time"}
 # calls that return the time of a step
@@ -5068,6 +5566,18 @@ def _te_scan(rel, qual, fn, inherited, sites):
                 raise Untranslatable(
                     "%s:%d %s: arithmetic over a time that no known sink accounts for: %s"
                     % (rel, node.lineno, qual, _te_norm(node)[:160]))
+    # --- the pure time helpers: a time may not be used anywhere but in a collected expression
+    #     (e.g. a tolerance that scales with abs(end_time) would make the step count depend on
+    #     the origin without any arithmetic on a time name)
+    if fname in TE_STRICT_FUNCTIONS:
+        for node, parent in nodes:
+            if isinstance(node, (ast.Name, ast.Attribute)) and isinstance(node.ctx, ast.Load) \
+                    and not isinstance(parent, ast.Attribute):
+                nm = _te_varname(node)
+                if nm is not None and roles.get(nm) == "T" and id(node) not in covered:
+                    raise Untranslatable(
+                        "%s:%d %s: the time `%s` is used outside the collected time expressions: %s"
+                        % (rel, node.lineno, qual, nm, _te_norm(parent)[:160]))
     # --- emit ---------------------------------------------------------------------
     for sink, role, expr, stmt in found:
         w = _TEWalker(roles)
@@ -5092,6 +5602,113 @@ def _te_mentions_time(e, roles):
 def _te_lean_ident(s):
     return re.sub(r"[^A-Za-z0-9_]", "_", s)
 
+
+
+# --- probes: a user callable evaluated at a FIXED ABSOLUTE time ---------------------------------
+# (input validation in constructors).  Such a time does not move with the origin, so the only
+# things that may survive of the returned value are a raise-or-not validation and a shape.
+
+TE_PROBE_FILES = ["oqupy/system.py", "oqupy/tempo.py", "oqupy/pt_tempo.py",
+                  "oqupy/system_dynamics.py", "oqupy/control.py", "oqupy/gradient.py"]
+TE_NOT_USER_CALLEES = {
+    "float", "int", "complex", "max", "min", "abs", "range", "len", "isinstance", "list",
+    "print", "round", "expm", "format", "str", "tuple", "sum", "pow", "check_convert",
+    "check_true", "check_isinstance", "sqrt", "exp", "append", "extend", "insert", "update",
+    "warn", "join"}
+TE_NOT_USER_ROOTS = {"np", "opr", "integrate", "tn", "scipy", "warnings", "os", "math", "linalg"}
+# converters / validators: the value goes in, what comes out is judged by what happens to it
+TE_VALIDATORS = {"_check_hamiltonian", "float", "complex", "int", "np.array", "np.asarray"}
+
+
+def _te_float_consts(fn):
+    """names bound exactly once, to a float literal, in this function"""
+    seen = {}
+    for n in ast.walk(fn):
+        if isinstance(n, ast.Assign) and len(n.targets) == 1 and isinstance(n.targets[0], ast.Name):
+            seen.setdefault(n.targets[0].id, []).append(n.value)
+    aug = {n.target.id for n in ast.walk(fn)
+           if isinstance(n, ast.AugAssign) and isinstance(n.target, ast.Name)}
+    return {k: v[0].value for k, v in seen.items()
+            if len(v) == 1 and k not in aug and isinstance(v[0], ast.Constant)
+            and isinstance(v[0].value, float)}
+
+
+def _te_probe_time(call, consts, params):
+    """source text of the fixed time a call hands to a (possibly user supplied) callable"""
+    ch = attr_chain(call.func)
+    if ch is None:
+        return None
+    if ch[0] in TE_NOT_USER_ROOTS or ch[-1] in TE_NOT_USER_CALLEES or ch[-1][:1].isupper():
+        return None
+    for a in call.args:
+        if isinstance(a, ast.Constant) and isinstance(a.value, float):
+            return repr(a.value)
+        if isinstance(a, ast.Name) and a.id in consts:
+            return "%s = %r" % (a.id, consts[a.id])
+        if isinstance(a, ast.Starred) and len(ch) == 1 and ch[0] in params:
+            return "*" + _te_norm(a.value)      # a parameter called with forwarded arguments
+    return None
+
+
+def _te_kept(node, parent_of, fn, depth=0):
+    """what survives of the value of `node`"""
+    if depth > 6:
+        return {"unknown"}
+    par = parent_of.get(id(node))
+    if par is None or isinstance(par, ast.Expr):
+        return {"discard"}
+    if isinstance(par, ast.Call):
+        if par.func is node:
+            return {"value"}                    # the kept object is itself called later
+        ch = attr_chain(par.func)
+        nm = ".".join(ch) if ch else ""
+        if nm in TE_VALIDATORS:
+            up = _te_kept(par, parent_of, fn, depth + 1)
+            return {("validate" if k == "discard" else k) for k in up}
+        return {"unknown"}
+    if isinstance(par, ast.Attribute) and par.value is node:
+        if par.attr == "shape":
+            return {"shape"}
+        if par.attr == "dtype":
+            return {"dtype"}
+        return {"unknown"}
+    if isinstance(par, ast.Return):
+        return {"value"}
+    if isinstance(par, (ast.Assign, ast.AnnAssign)):
+        tgts = par.targets if isinstance(par, ast.Assign) else [par.target]
+        if len(tgts) == 1 and isinstance(tgts[0], ast.Name):
+            v = tgts[0].id
+            out = set()
+            for n in ast.walk(fn):
+                if isinstance(n, ast.Name) and n.id == v and isinstance(n.ctx, ast.Load):
+                    out |= _te_kept(n, parent_of, fn, depth + 1)
+            return out or {"discard"}
+        return {"value"}
+    return {"unknown"}
+
+
+def _te_probes(src):
+    probes = []
+    for rel in TE_PROBE_FILES:
+        tree = src.tree(rel)
+        for qual, fn in _te_functions(tree):
+            consts = _te_float_consts(fn)
+            params = {a.arg for a in fn.args.args}
+            parent_of = {}
+            for n in ast.walk(fn):
+                for ch in ast.iter_child_nodes(n):
+                    parent_of[id(ch)] = n
+            own = [n for n, _ in _te_own_nodes(fn)]
+            for n in own:
+                if not isinstance(n, ast.Call):
+                    continue
+                t = _te_probe_time(n, consts, params)
+                if t is None:
+                    continue
+                kept = sorted(_te_kept(n, parent_of, fn))
+                probes.append(dict(rel=rel, qual=qual, line=n.lineno, src=_te_norm(n), time=t,
+                                   kept=kept))
+    return probes
 
 # sites that the theorems / the correspondence refer to by name: they must exist
 TE_REQUIRED = [
@@ -5158,6 +5775,25 @@ def frag_timeexprs(src):
     out.append("/-- every time expression found in %s -/\ndef sites : List Site :=\n  [%s]\n"
                % (", ".join(r for r, _ in TE_FILES),
                   ",\n   ".join("s_" + s["name"] for s in sites)))
+    probes = _te_probes(src)
+    if not probes:
+        raise Untranslatable("no evaluation of a user callable at a fixed time found any more "
+                             "(the constructors of the time dependent systems used to probe H(1.0))")
+    pn = []
+    for i, p in enumerate(probes):
+        nm = "p_%s_%d" % (_te_lean_ident(p["qual"]), i + 1)
+        pn.append(nm)
+        out.append(
+            "/-- %s:%d  %s evaluates a callable at the fixed time %s:  %s   kept: %s -/\n"
+            "def %s : Probe :=\n"
+            "  { name := %s, file := %s, line := %d,\n"
+            "    src := %s, time := %s,\n"
+            "    kept := [%s] }\n"
+            % (p["rel"], p["line"], p["qual"], p["time"], p["src"].replace("-/", "- /"),
+               ", ".join(p["kept"]), nm, lstr(nm[2:]), lstr(p["rel"]), p["line"], lstr(p["src"]),
+               lstr(p["time"]), ", ".join("." + k for k in p["kept"])))
+    out.append("/-- every evaluation of a (user) callable at a time that does not move with the "
+               "origin -/\ndef probes : List Probe :=\n  [%s]\n" % ",\n   ".join(pn))
     return "\n".join(out)
 # end of TimeExprs
 
@@ -6840,6 +7476,156 @@ def _mf_propagators(src, out):
     out.append("/-- %s:%d  %s.liouvillian(t0, t, field, field_derivative) evaluates the user's "
                "Hamiltonian at  (t, tdsf_lin_field field field_derivative (tdsf_lin_delta t0 t)) -/\n"
                "def tdsf_ham_shape_checked : Bool := true\n" % (rel, fn.lineno, cls))
+    # the time handed to the user's Hamiltonian / rates / Lindblad operators by both liouvillians
+    ty2 = {"t0": "Flt", "t": "Flt"}
+    fn2 = src.function(rel, cls + "._linearised_hamiltonian")
+    hcall = _mf_strip(fn2.body)[0].value
+    out.append(_mf_flt_def("tdsf_ham_time", [], hcall.args[0], ["t0", "t"],
+                           "%s:%d %s._linearised_hamiltonian:  first argument of self._hamiltonian"
+                           % (rel, fn2.lineno, cls), types=ty2))
+    for qual, pre, params in ((cls + ".liouvillian", "tdsf", ["t0", "t"]),
+                              ("TimeDependentSystem.liouvillian", "tds", ["t"])):
+        f = src.function(rel, qual)
+        if pre == "tds":
+            if [a.arg for a in f.args.args] != ["self", "t"]:
+                raise Untranslatable(qual + ": parameters")
+            hh = [s for s in ast.walk(f) if isinstance(s, ast.Assign)
+                  and _mf_norm(s.targets[0]) == "hamiltonian"]
+            if len(hh) != 1 or not (isinstance(hh[0].value, ast.Call)
+                                    and _mf_norm(hh[0].value.func) == "self._hamiltonian"
+                                    and len(hh[0].value.args) == 1 and not hh[0].value.keywords):
+                raise Untranslatable(qual + ": Hamiltonian evaluation")
+            for s in ast.walk(f):
+                if isinstance(s, ast.Assign) and _mf_norm(s.targets[0]) == "t":
+                    raise Untranslatable(qual + ": re-binding of t")
+            out.append(_mf_flt_def("tds_ham_time", [], hh[0].value.args[0], ["t"],
+                                   "%s:%d %s:  %s" % (rel, hh[0].lineno, qual, _mf_norm(hh[0])),
+                                   types=ty2))
+        for tgt, var, store, nm in (("gammas", "gamma", "self._gammas", "gamma"),
+                                    ("lindblad_operators", "l_op", "self._lindblad_operators", "lop")):
+            hh = [s for s in ast.walk(f) if isinstance(s, ast.Assign) and _mf_norm(s.targets[0]) == tgt]
+            ok = len(hh) == 1 and isinstance(hh[0].value, ast.ListComp)
+            if ok:
+                lc = hh[0].value
+                ok = (len(lc.generators) == 1 and not lc.generators[0].ifs
+                      and _mf_norm(lc.generators[0].target) == var
+                      and _mf_norm(lc.generators[0].iter) == store
+                      and isinstance(lc.elt, ast.Call) and _mf_norm(lc.elt.func) == var
+                      and len(lc.elt.args) == 1 and not lc.elt.keywords)
+            if not ok:
+                raise Untranslatable("%s: evaluation of %s" % (qual, tgt))
+            out.append(_mf_flt_def("%s_%s_time" % (pre, nm), [], hh[0].value.elt.args[0], params,
+                                   "%s:%d %s:  %s" % (rel, hh[0].lineno, qual, _mf_norm(hh[0])),
+                                   types=ty2))
+        rets = [s for s in ast.walk(f) if isinstance(s, ast.Return)]
+        if len(rets) != 1 or _mf_norm(rets[0].value) != "_liouvillian(hamiltonian, gammas, lindblad_operators)":
+            raise Untranslatable(qual + ": return value")
+
+
+def _mf_const(node, consts, where):
+    """value of a default-argument expression: None, numbers, names of oqupy/config.py, + - * / **"""
+    if isinstance(node, ast.Constant) and (node.value is None or (
+            isinstance(node.value, (int, float)) and not isinstance(node.value, bool))):
+        return node.value
+    if isinstance(node, ast.Name) and node.id in consts:
+        return consts[node.id]
+    if isinstance(node, ast.UnaryOp) and isinstance(node.op, ast.USub):
+        return -_mf_const(node.operand, consts, where)
+    if isinstance(node, ast.BinOp) and isinstance(node.op, (ast.Add, ast.Sub, ast.Mult, ast.Div, ast.Pow)):
+        x, y = _mf_const(node.left, consts, where), _mf_const(node.right, consts, where)
+        if x is None or y is None:
+            raise Untranslatable(where + ": arithmetic on None")
+        return {ast.Add: lambda: x + y, ast.Sub: lambda: x - y, ast.Mult: lambda: x * y,
+                ast.Div: lambda: x / y, ast.Pow: lambda: x ** y}[type(node.op)]()
+    raise Untranslatable(where + ": default value " + _mf_norm(node)[:80])
+
+
+def _mf_defaults(src, out):
+    """default values of subdiv_limit / liouvillian_epsrel (None selects two-point sampling of the
+    Liouvillian instead of its adaptive integration) and their way to get_propagators"""
+    cfg = src.tree("oqupy/config.py")
+    consts = {}
+    for s in cfg.body:
+        if isinstance(s, ast.Assign) and len(s.targets) == 1 and isinstance(s.targets[0], ast.Name):
+            try:
+                consts[s.targets[0].id] = _mf_const(s.value, consts, "config")
+            except Untranslatable:
+                pass
+    for rel, qual, pre in (("oqupy/tempo.py", "TempoParameters.__init__", "tp"),
+                           ("oqupy/system_dynamics.py", "compute_dynamics_with_field", "cdwf"),
+                           ("oqupy/system_dynamics.py", "compute_dynamics", "cd")):
+        fn = src.function(rel, qual)
+        # the names must be the ones imported from oqupy.config
+        imported = set()
+        for s in src.tree(rel).body:
+            if isinstance(s, ast.ImportFrom) and s.module == "oqupy.config":
+                imported |= {a.asname or a.name for a in s.names}
+        args = fn.args.args
+        defaults = dict(zip([a.arg for a in args[len(args) - len(fn.args.defaults):]], fn.args.defaults))
+        for a, d in zip(fn.args.kwonlyargs, fn.args.kw_defaults):
+            if d is not None:
+                defaults[a.arg] = d
+        for nm, kind in (("subdiv_limit", "Int"), ("liouvillian_epsrel", "Rat")):
+            where = "%s:%d %s" % (rel, fn.lineno, qual)
+            if nm not in defaults:
+                raise Untranslatable(where + ": no default for " + nm)
+            d = defaults[nm]
+            for n in ast.walk(d):
+                if isinstance(n, ast.Name) and n.id not in imported:
+                    raise Untranslatable(where + ": default of %s reads %s" % (nm, n.id))
+            v = _mf_const(d, consts, where)
+            if v is None:
+                term = "none"
+            elif kind == "Int":
+                if not isinstance(v, int):
+                    raise Untranslatable(where + ": non-integer default of " + nm)
+                term = "some (%d : Int)" % v
+            else:
+                pq = float(v).as_integer_ratio()
+                term = "some (mkRat (%d) %d)" % pq
+            out.append("/-- %s:  default  %s = %s -/\ndef %s_default_%s : Option %s :=\n  %s\n"
+                       % (where, nm, _mf_norm(d), pre, nm, kind, term))
+        for s in ast.walk(fn) if pre != "tp" else []:
+            if isinstance(s, (ast.Assign, ast.AugAssign)):
+                tg = s.targets if isinstance(s, ast.Assign) else [s.target]
+                if any(_mf_norm(t) in ("subdiv_limit", "liouvillian_epsrel") for t in tg):
+                    raise Untranslatable("%s: re-binding of subdiv_limit / liouvillian_epsrel" % qual)
+    # TempoParameters keeps what it is given
+    fn = src.function("oqupy/tempo.py", "TempoParameters.__init__")
+    asg = {}
+    for s in ast.walk(fn):
+        if isinstance(s, ast.Assign) and len(s.targets) == 1:
+            asg.setdefault(_mf_norm(s.targets[0]), []).append(_mf_norm(s.value))
+    if sorted(asg.get("tmp_subdiv_limit", [])) != ["None", "int(subdiv_limit)"] \
+            or asg.get("self._subdiv_limit") != ["tmp_subdiv_limit"] \
+            or asg.get("tmp_liouvillian_epsrel") != ["float(liouvillian_epsrel)"] \
+            or asg.get("self._liouvillian_epsrel") != ["tmp_liouvillian_epsrel"]:
+        raise Untranslatable("TempoParameters.__init__: storage of subdiv_limit / liouvillian_epsrel")
+    for prop, attr in (("subdiv_limit", "self._subdiv_limit"),
+                       ("liouvillian_epsrel", "self._liouvillian_epsrel")):
+        hits = [c for c in src.function("oqupy/tempo.py", "TempoParameters", raw=True).body
+                if isinstance(c, ast.FunctionDef) and c.name == prop
+                and any(_mf_norm(d) == "property" for d in c.decorator_list)]
+        if len(hits) != 1 or [_mf_norm(x) for x in _mf_strip(hits[0].body)] != ["return " + attr]:
+            raise Untranslatable("TempoParameters.%s: not a plain read of %s" % (prop, attr))
+    # ... and every method hands exactly these to get_propagators
+    want_tp = ["self._parameters.dt", "self._start_time", "self._parameters.subdiv_limit",
+               "self._parameters.liouvillian_epsrel"]
+    want_fn = ["dt", "start_time", "subdiv_limit", "liouvillian_epsrel"]
+    for rel, qual, want in (("oqupy/tempo.py", "Tempo._prepare_backend", want_tp),
+                            ("oqupy/tempo.py", "MeanFieldTempo._prepare_backend", want_tp),
+                            ("oqupy/system_dynamics.py", "compute_dynamics", want_fn),
+                            ("oqupy/system_dynamics.py", "compute_dynamics_with_field", want_fn)):
+        fn = src.function(rel, qual)
+        calls = [n for n in ast.walk(fn) if isinstance(n, ast.Call)
+                 and isinstance(n.func, ast.Attribute) and n.func.attr == "get_propagators"]
+        if len(calls) != 1 or calls[0].keywords or [_mf_norm(a) for a in calls[0].args] != want:
+            raise Untranslatable("%s: arguments of get_propagators" % qual)
+    out.append("/-- Tempo and MeanFieldTempo hand (parameters.dt, start_time, parameters.subdiv_limit, "
+               "parameters.liouvillian_epsrel) of their TempoParameters, compute_dynamics and "
+               "compute_dynamics_with_field their own (dt, start_time, subdiv_limit, liouvillian_epsrel) "
+               "to system.get_propagators; TempoParameters stores both values as given -/\n"
+               "def propagator_settings_passthrough_checked : Bool := true\n")
 
 
 @fragment("MeanFieldTimes")
@@ -6849,6 +7635,7 @@ def frag_meanfieldtimes(src):
     _mf_backend(src, out)
     _mf_cdwf(src, out)
     _mf_propagators(src, out)
+    _mf_defaults(src, out)
     return "\n".join(out)
 # end of MeanFieldTimes
 
@@ -7752,10 +8539,21 @@ def _tl_layers(src, out):
             or not isinstance(loop.body[0].value, ast.Call) \
             or _tl_norm(loop.body[0].value.func) != "compute_nn_gate":
         raise Untranslatable("compute_trotter_layers: gate loop")
-    kw = {k: _tl_norm(v) for k, v in _tl_kw(loop.body[0].value, "compute_trotter_layers").items()}
-    if kw != {"liouvillian": "liouv", "site": "i", "hs_dim_l": "hs_dims[i]",
-              "hs_dim_r": "hs_dims[i + 1]", "dt": "dt", "epsrel": "epsrel"}:
+    kwn = _tl_kw(loop.body[0].value, "compute_trotter_layers")
+    kw = {k: _tl_norm(v) for k, v in kwn.items()}
+    site_expr = kwn.get("site")
+    kw.pop("site", None)
+    if site_expr is None or kw != {"liouvillian": "liouv", "hs_dim_l": "hs_dims[i]",
+                                   "hs_dim_r": "hs_dims[i + 1]", "dt": "dt", "epsrel": "epsrel"}:
         raise Untranslatable("compute_trotter_layers: compute_nn_gate arguments %r" % kw)
+    trs = FnTranslator({"i": "Int"})
+    st = trs.expr(site_expr)
+    if st[1] != "Int" or any(v != "i" for v in trs.free):
+        raise Untranslatable("compute_trotter_layers: site argument " + _tl_norm(site_expr))
+    out.append("/-- %s:%d  compute_trotter_layers: the gate built from nn_full_liouvillians[i] (a fresh "
+               "NnGate per loop iteration, appended at position i of the gate list) is given  site=%s -/\n"
+               "def gate_site (i : Int) : Int := %s\n"
+               % (rel, loop.body[0].lineno, _tl_norm(site_expr), st[0]))
     slices = {}
     for s, name in ((body[2], "gates_even"), (body[3], "gates_odd")):
         if not (isinstance(s, ast.Assign) and _tl_norm(s.targets[0]) == name
@@ -8724,10 +9522,70 @@ def _bs_config(src, out):
                % ", ".join(checked))
 
 
+def _bs_memo(src, out):
+    """the memoisation of eta_function / CustomCorrelations.correlation_2d_integral must hand the
+    call arguments to the wrapped function unchanged.  Accepted: functools.lru_cache applied
+    directly, or the decorator `_cached_on_parameters` of the shape
+        @lru_cache(..) def cached(self, parameters, *args, **kwargs): return method(self, *args, **kwargs)
+        @wraps(method) def wrapper(self, *args, **kwargs): return cached(self, self._parameters(), *args, **kwargs)
+        return wrapper"""
+    decos = {}
+    for qual in ("CustomSD.eta_function", "CustomCorrelations.correlation_2d_integral"):
+        fn = src.function(BS_REL, qual)
+        ds = [_bs_norm(d) for d in fn.decorator_list]
+        if len(ds) != 1:
+            raise Untranslatable("%s: expected exactly one decorator, found %r" % (qual, ds))
+        decos[qual] = ds[0]
+    kinds = set()
+    for qual, d in decos.items():
+        if d.startswith("lru_cache("):
+            kinds.add("lru_cache")
+        elif d == "_cached_on_parameters":
+            kinds.add("cached_on_parameters")
+        else:
+            raise Untranslatable("%s: unknown memo decorator %s" % (qual, d))
+    line = 0
+    if "cached_on_parameters" in kinds:
+        fn = src.function(BS_REL, "_cached_on_parameters")
+        line = fn.lineno
+        if [a.arg for a in fn.args.args] != ["method"]:
+            raise Untranslatable("_cached_on_parameters: parameters")
+        body = _bs_body(fn)
+        if len(body) != 3 or not isinstance(body[0], ast.FunctionDef) \
+                or not isinstance(body[1], ast.FunctionDef) or _bs_norm(body[2]) != "return wrapper":
+            raise Untranslatable("_cached_on_parameters: expected `def cached`, `def wrapper`, "
+                                 "`return wrapper`")
+        cached, wrapper = body[0], body[1]
+
+        def sig(f):
+            a = f.args
+            return ([x.arg for x in a.args], a.vararg.arg if a.vararg else None,
+                    a.kwarg.arg if a.kwarg else None, len(a.defaults), len(a.kwonlyargs))
+        if cached.name != "cached" or sig(cached) != (["self", "parameters"], "args", "kwargs", 0, 0) \
+                or [_bs_norm(x) for x in _bs_body(cached)] != ["return method(self, *args, **kwargs)"] \
+                or len(cached.decorator_list) != 1 \
+                or not _bs_norm(cached.decorator_list[0]).startswith("lru_cache("):
+            raise Untranslatable("_cached_on_parameters: `cached` is not "
+                                 "`@lru_cache(..) def cached(self, parameters, *args, **kwargs): "
+                                 "return method(self, *args, **kwargs)`")
+        if wrapper.name != "wrapper" or sig(wrapper) != (["self"], "args", "kwargs", 0, 0) \
+                or [_bs_norm(x) for x in _bs_body(wrapper)] != \
+                ["return cached(self, self._parameters(), *args, **kwargs)"] \
+                or [_bs_norm(d) for d in wrapper.decorator_list] != ["wraps(method)"]:
+            raise Untranslatable("_cached_on_parameters: `wrapper` does not pass its arguments on "
+                                 "unchanged: %r" % [_bs_norm(x) for x in _bs_body(wrapper)])
+    out.append("/-- %s:%d  memoisation of eta_function / CustomCorrelations.correlation_2d_integral "
+               "(%s): the wrapped function is called with exactly the arguments of the call, the "
+               "cache key is (object, current parameters, arguments) -/\n"
+               "def memoPassesArgumentsUnchanged : Bool := true\n"
+               % (BS_REL, line, ", ".join(sorted(kinds))))
+
+
 @fragment("BathShapes")
 def frag_bathshapes(src):
     out = ["open OQuPyVerif.BathCorr\n"]
     _bs_config(src, out)
+    _bs_memo(src, out)
     _bs_shapes(src, out)
     _bs_custom_region(src, out)
     _bs_complex_integral(src, out)
@@ -9757,6 +10615,434 @@ inductive AddOp where
         raise Untranslatable("_find_list_index is not `bisect(sorted_list, entry_value)`")
     out.append("/-- `_find_list_index` is `bisect.bisect` (= bisect_right) -/\n"
                "def find_list_index_is_bisect_right : Bool := true\n")
+    return "\n".join(out)
+
+
+# ---------------------------------------------------------------------------
+# CorrBath  (C07):  oqupy/bath_dynamics.py -- which system operator the bath correlations are
+#                   built from, which compute_correlations call feeds them, and the cell
+#                   formulas of the frequency-window kernels (over an abstract field K with an
+#                   exponential `E`)
+# ---------------------------------------------------------------------------
+
+class _C07K:
+    """expression -> Lean term over a carrier K (core classes Add Sub Mul Div Neg IntCast),
+    `np.exp` -> `E`, `1j` -> `I`, `x[<int>]` -> `x_<int>`."""
+
+    def __init__(self, allowed):
+        self.allowed = set(allowed)
+        self.free = []
+
+    def var(self, n):
+        if n not in self.allowed:
+            raise Untranslatable("CorrBath: unexpected name %r" % n)
+        if n not in self.free:
+            self.free.append(n)
+        return n
+
+    def expr(self, e):
+        if isinstance(e, ast.Constant):
+            if isinstance(e.value, bool):
+                raise Untranslatable("CorrBath: bool constant")
+            if isinstance(e.value, int):
+                return "((%d : Int) : K)" % e.value
+            if isinstance(e.value, complex) and e.value == 1j:
+                return self.var("I")
+            raise Untranslatable("CorrBath: constant %r" % (e.value,))
+        if isinstance(e, ast.Name):
+            return self.var(e.id)
+        if isinstance(e, ast.Subscript) and isinstance(e.value, ast.Name) \
+                and isinstance(e.slice, ast.Constant) and isinstance(e.slice.value, int):
+            return self.var("%s_%d" % (e.value.id, e.slice.value))
+        if isinstance(e, ast.UnaryOp) and isinstance(e.op, ast.USub):
+            return "(-%s)" % self.expr(e.operand)
+        if isinstance(e, ast.BinOp):
+            sym = {ast.Add: "+", ast.Sub: "-", ast.Mult: "*", ast.Div: "/"}.get(type(e.op))
+            if sym is None:
+                raise Untranslatable("CorrBath: operator " + ast.dump(e.op))
+            return "(%s %s %s)" % (self.expr(e.left), sym, self.expr(e.right))
+        if isinstance(e, ast.Call) and attr_chain(e.func) == ["np", "exp"] and len(e.args) == 1 \
+                and not e.keywords:
+            return "(E %s)" % self.expr(e.args[0])
+        raise Untranslatable("CorrBath: expression " + ast.unparse(e)[:120])
+
+
+_C07K_SIG = "{K : Type} [Add K] [Sub K] [Mul K] [Div K] [Neg K] [IntCast K]"
+
+
+def _c07_kdef(name, term, params, doc, with_E=True):
+    sig = " ".join("(%s : K)" % p for p in params)
+    return "/-- %s -/\ndef %s %s %s%s : K :=\n  %s\n" % (
+        doc.replace("-/", "- /"), name, _C07K_SIG, "(E : K → K) " if with_E else "", sig, term)
+
+
+def _c07_signed_terms(stmts, target, unwrap):
+    """`target = X; target -= Y; target += Z` -> [(+1|-1, node)], with `unwrap` applied to
+    every right-hand side"""
+    out = []
+    for s in stmts:
+        if isinstance(s, ast.Assign) and len(s.targets) == 1 and isinstance(s.targets[0], ast.Name) \
+                and s.targets[0].id == target:
+            if out:
+                raise Untranslatable("CorrBath: %s assigned twice" % target)
+            out.append((1, unwrap(s.value)))
+        elif isinstance(s, ast.AugAssign) and isinstance(s.target, ast.Name) and s.target.id == target:
+            sg = {ast.Add: 1, ast.Sub: -1}.get(type(s.op))
+            if sg is None or not out:
+                raise Untranslatable("CorrBath: update of %s" % target)
+            out.append((sg, unwrap(s.value)))
+    return out
+
+
+def _c07_sum(tr, terms):
+    out = None
+    for sg, node in terms:
+        t = tr.expr(node)
+        if out is None:
+            out = t if sg > 0 else "(-%s)" % t
+        else:
+            out = "(%s %s %s)" % (out, "+" if sg > 0 else "-", t)
+    return out
+
+
+def _c07_factor_tag(node, fn, unitary_names, depth=0):
+    """one factor of the `@` product -> "U" | "Ud" | "D" """
+    text = ast.unparse(node)
+    if text == "self.bath.unitary_transform" or text == "self._unitary" or text in unitary_names:
+        return "U"
+    if text in ("self.bath.coupling_operator", "self._coupling_operator"):
+        return "D"
+    # <u>.conjugate().T | <u>.conj().T | <u>.T.conjugate() | <u>.T.conj()
+    inner = None
+    if isinstance(node, ast.Attribute) and node.attr == "T" and isinstance(node.value, ast.Call) \
+            and isinstance(node.value.func, ast.Attribute) \
+            and node.value.func.attr in ("conjugate", "conj") and not node.value.args:
+        inner = node.value.func.value
+    elif isinstance(node, ast.Call) and isinstance(node.func, ast.Attribute) \
+            and node.func.attr in ("conjugate", "conj") and not node.args \
+            and isinstance(node.func.value, ast.Attribute) and node.func.value.attr == "T":
+        inner = node.func.value.value
+    if inner is not None and _c07_factor_tag(inner, fn, unitary_names, depth + 1) == "U":
+        return "Ud"
+    if isinstance(node, ast.Name) and depth < 3:
+        hits = [n for n in ast.walk(fn) if isinstance(n, ast.Assign) and len(n.targets) == 1
+                and isinstance(n.targets[0], ast.Name) and n.targets[0].id == node.id]
+        if len(hits) == 1:
+            return _c07_factor_tag(hits[0].value, fn, unitary_names, depth + 1)
+    raise Untranslatable("CorrBath: factor %s of the rebuilt coupling operator" % text)
+
+
+def _c07_matmul_factors(node):
+    if isinstance(node, ast.BinOp) and isinstance(node.op, ast.MatMult):
+        return _c07_matmul_factors(node.left) + _c07_matmul_factors(node.right)
+    return [node]
+
+
+@fragment("CorrBath")
+def frag_corrbath(src):
+    rel = "oqupy/bath_dynamics.py"
+    out = []
+    # ---- Bath: what is stored ---------------------------------------------------
+    fb = src.function("oqupy/bath.py", "Bath.__init__")
+    eig = [n for n in ast.walk(fb) if isinstance(n, ast.Assign) and isinstance(n.value, ast.Call)
+           and attr_chain(n.value.func) in (["np", "linalg", "eigh"], ["np", "linalg", "eig"])]
+    if len(eig) != 1 or ast.unparse(eig[0].targets[0]) != "(w, v)":
+        raise Untranslatable("Bath.__init__: w, v = np.linalg.eigh(..)")
+    stores = {ast.unparse(n.targets[0]): ast.unparse(n.value) for n in ast.walk(fb)
+              if isinstance(n, ast.Assign) and len(n.targets) == 1
+              and ast.unparse(n.targets[0]) in ("self._unitary", "self._coupling_operator")
+              and ast.unparse(n.value) in ("v", "np.diag(w)")}
+    if stores != {"self._unitary": "v", "self._coupling_operator": "np.diag(w)"}:
+        raise Untranslatable("Bath.__init__: what is stored as unitary / coupling operator")
+    recon = [n for n in ast.walk(fb) if isinstance(n, ast.Call) and attr_chain(n.func) == ["np", "allclose"]
+             and len(n.args) == 2 and isinstance(n.args[1], ast.BinOp)
+             and isinstance(n.args[1].op, ast.MatMult)]
+    if len(recon) != 1:
+        raise Untranslatable("Bath.__init__: reconstruction assertion")
+    out.append("/-- oqupy/bath.py:%d  Bath asserts  %s ≈ %s  (U = eigenvector matrix `v`, "
+               "D = np.diag(w)) -/\ndef bath_reconstruction_factors : List String := %s\n"
+               "def bath_reconstructs : String := %s\n"
+               % (recon[0].lineno, ast.unparse(recon[0].args[0]), ast.unparse(recon[0].args[1]),
+                  _c07_lstrs([_c07_factor_tag(f, fb, ()) for f in _c07_matmul_factors(recon[0].args[1])]),
+                  _c07_lstr(ast.unparse(recon[0].args[0]))))
+    props = {}
+    for nm in ("coupling_operator", "unitary_transform"):
+        fp = src.function("oqupy/bath.py", "Bath." + nm)
+        rets = [ast.unparse(n.value) for n in ast.walk(fp) if isinstance(n, ast.Return)]
+        props[nm] = rets
+    if props != {"coupling_operator": ["self._coupling_operator.copy()"],
+                 "unitary_transform": ["self._unitary.copy()"]}:
+        raise Untranslatable("Bath properties: %s" % props)
+
+    # ---- generate_system_correlations ------------------------------------------------
+    fg = src.function(rel, "TwoTimeBathCorrelations.generate_system_correlations")
+    hits = src.assignment(fg, "coup_op")
+    if len(hits) != 1:
+        raise Untranslatable("generate_system_correlations: coup_op")
+    facs = [_c07_factor_tag(f, fg, ()) for f in _c07_matmul_factors(hits[0].value)]
+    out.append("/-- %s:%d  coup_op = %s  as a product of U = bath.unitary_transform, "
+               "Ud = its conjugate transpose, D = bath.coupling_operator -/\n"
+               "def coup_op_factors : List String := %s\n"
+               % (rel, hits[0].lineno, ast.unparse(hits[0].value), _c07_lstrs(facs)))
+    calls = _c07_calls(fg, "compute_correlations")
+    if len(calls) != 1:
+        raise Untranslatable("generate_system_correlations: call of compute_correlations")
+    fc = src.function("oqupy/system_dynamics.py", "compute_correlations")
+    pnames = [a.arg for a in fc.args.args]
+    defaults = dict(zip(pnames[len(pnames) - len(fc.args.defaults):],
+                        [ast.unparse(d) for d in fc.args.defaults]))
+    bound = list(zip(pnames, [ast.unparse(a) for a in calls[0].args]))
+    bound += [(k.arg, ast.unparse(k.value)) for k in calls[0].keywords]
+    if any(k is None for k, _ in bound):
+        raise Untranslatable("generate_system_correlations: ** in the call")
+    out.append("/-- %s:%d  arguments of compute_correlations, bound to its parameter names -/\n"
+               "def sys_corr_call : List (String × String) := %s\n"
+               "/-- default of `time_order` of compute_correlations -/\n"
+               "def sys_corr_default_time_order : String := %s\n"
+               % (rel, calls[0].lineno, _c07_lpairs(bound), _c07_lstr(defaults.get("time_order", ""))))
+    hits = src.assignment(fg, "corr_mat_dim")
+    if len(hits) != 1:
+        raise Untranslatable("generate_system_correlations: corr_mat_dim")
+    out.append(_c07_corr_def("corr_mat_dim", hits[0].value,
+                             {"final_time": "Flt", "dt": "Flt"}, "Int", ["final_time", "dt"],
+                             "%s:%d  corr_mat_dim = %s" % (rel, hits[0].lineno,
+                                                           ast.unparse(hits[0].value))))
+    sl = {}
+    for nm in ("times_a", "times_b"):
+        vs = [ast.unparse(h.value) for h in src.assignment(fg, nm)]
+        sl[nm] = vs
+    out.append("/-- the time specifications handed to compute_correlations (first call / extension) -/\n"
+               "def sys_corr_times_a : List String := %s\ndef sys_corr_times_b : List String := %s\n"
+               % (_c07_lstrs(sl["times_a"]), _c07_lstrs(sl["times_b"])))
+    dtsrc = [ast.unparse(h.value) for h in src.assignment(fg, "dt")]
+    out.append("def sys_corr_dt_source : List String := %s\n" % _c07_lstrs(dtsrc))
+
+    # ---- _calc_kernel: cell formulas -------------------------------------------------
+    fk = src.function(rel, "TwoTimeBathCorrelations._calc_kernel")
+    ph = [n for n in fk.body if isinstance(n, ast.FunctionDef) and n.name == "phase"]
+    if len(ph) != 1:
+        raise Untranslatable("_calc_kernel: inner function phase")
+    ph = ph[0]
+    mesh = [n for n in ast.walk(fk) if isinstance(n, ast.Assign) and isinstance(n.value, ast.Call)
+            and attr_chain(n.value.func) == ["np", "meshgrid"]]
+    if len(mesh) != 1 or ast.unparse(mesh[0].targets[0]) != "(tpp_index, tp_index)" \
+            or [ast.unparse(k.value) for k in mesh[0].value.keywords if k.arg == "indexing"] != ["'ij'"]:
+        raise Untranslatable("_calc_kernel: meshgrid")
+    tks = {t: [ast.unparse(h.value) for h in src.assignment(ph, t)] for t in ("tk", "tkp")}
+    if tks != {"tk": ["tp_index[regions[region]]"], "tkp": ["tpp_index[regions[region]]"]}:
+        raise Untranslatable("_calc_kernel/phase: tk, tkp = %s" % tks)
+    out.append("/-- %s:%d  index orientation: `tpp_index, tp_index = meshgrid(.., indexing='ij')`, "
+               "tk = tp_index (column = later time t'), tkp = tpp_index (row = earlier time t'') -/\n"
+               "def kernel_tk_is_column : Bool := true\n" % (rel, mesh[0].lineno))
+    ab = {}
+    for nm in ("a", "b"):
+        hs = [h for h in src.assignment(ph, nm)]
+        if len(hs) != 1:
+            raise Untranslatable("_calc_kernel/phase: %s" % nm)
+        tr = _C07K(["I", "dagg_0", "dagg_1", "freq_1", "freq_2"])
+        term = tr.expr(hs[0].value)
+        ab[nm] = tr.free
+        out.append(_c07_kdef("phase_" + nm, term, tr.free,
+                             "%s:%d  %s = %s" % (rel, hs[0].lineno, nm, ast.unparse(hs[0].value)),
+                             with_E=False))
+    swaps = [ast.unparse(s) for s in ph.body if isinstance(s, ast.If)
+             and ast.unparse(s.test) == "swap_ts"]
+    if swaps != ["if swap_ts:\n    a, b = (b, a)"]:
+        raise Untranslatable("_calc_kernel/phase: swap_ts block %s" % swaps)
+    reg_if = [s for s in ph.body if isinstance(s, ast.If) and ast.unparse(s.test) == "region in ('a', 'c')"]
+    if len(reg_if) != 1:
+        raise Untranslatable("_calc_kernel/phase: region test")
+    reg_if = reg_if[0]
+
+    def untriu(v):
+        if isinstance(v, ast.Call) and attr_chain(v.func) == ["np", "triu"] and len(v.args) == 1 \
+                and [(k.arg, ast.unparse(k.value)) for k in v.keywords] == [("k", "1")]:
+            return v.args[0]
+        raise Untranslatable("_calc_kernel/phase: expected np.triu(.., k=1), got %s" % ast.unparse(v)[:60])
+
+    tri_terms = _c07_signed_terms([s for s in reg_if.body
+                                   if not (isinstance(s, ast.AugAssign)
+                                           and ast.unparse(s.value) == "np.diag(di)")], "ph", untriu)
+    if len(tri_terms) != 4:
+        raise Untranslatable("_calc_kernel/phase: off-diagonal terms of regions a, c")
+    closing = [ast.unparse(s) for s in reg_if.body if isinstance(s, ast.AugAssign)
+               and ast.unparse(s.value) == "np.diag(di)"]
+    if closing != ["ph += np.diag(di)"] or \
+            [ast.unparse(h.value) for h in src.assignment(ph, "sel")] != ["np.diag(tk)"]:
+        raise Untranslatable("_calc_kernel/phase: diagonal of regions a, c")
+    cellvars = ["a", "b", "dt", "tk", "tkp"]
+    tr = _C07K(cellvars)
+    out.append(_c07_kdef("phase_cell_tri", _c07_sum(tr, tri_terms), cellvars,
+                         "%s:%d  regions a, c strictly above the diagonal (np.triu(.., k=1)): "
+                         "the four terms of `ph`" % (rel, reg_if.lineno)))
+    rect_terms = _c07_signed_terms(reg_if.orelse, "ph", lambda v: v)
+    if len(rect_terms) != 4:
+        raise Untranslatable("_calc_kernel/phase: terms of region b")
+    tr = _C07K(cellvars)
+    out.append(_c07_kdef("phase_cell_rect", _c07_sum(tr, rect_terms), cellvars,
+                         "%s:%d  region b: the four terms of `ph`" % (rel, reg_if.lineno)))
+    di_if = [s for s in reg_if.body if isinstance(s, ast.If)]
+    if len(di_if) != 1 or ast.unparse(di_if[0].test) != "a + b != 0":
+        raise Untranslatable("_calc_kernel/phase: `if a + b != 0`")
+    di0 = _c07_signed_terms(reg_if.body, "di", lambda v: v)
+    if len(di0) != 1:
+        raise Untranslatable("_calc_kernel/phase: di")
+    diagvars = ["a", "b", "dt", "sel"]
+    def aug_terms(stmts):
+        res = []
+        for st in stmts:
+            sg = {ast.Add: 1, ast.Sub: -1}.get(type(st.op)) if isinstance(st, ast.AugAssign) else None
+            if sg is None or not (isinstance(st.target, ast.Name) and st.target.id == "di"):
+                raise Untranslatable("_calc_kernel/phase: diagonal branch statement")
+            res.append((sg, st.value))
+        return res
+    tr = _C07K(diagvars)
+    out.append(_c07_kdef("phase_diag_generic", _c07_sum(tr, di0 + aug_terms(di_if[0].body)),
+                         diagvars, "%s:%d  diagonal cell of regions a, c when a + b != 0"
+                         % (rel, di_if[0].lineno)))
+    tr = _C07K(diagvars)
+    out.append(_c07_kdef("phase_diag_degenerate", _c07_sum(tr, di0 + aug_terms(di_if[0].orelse)),
+                         diagvars, "%s:%d  diagonal cell of regions a, c when a + b == 0"
+                         % (rel, di_if[0].lineno)))
+    # regions and the kernel tables
+    regs = [h for h in src.assignment(fk, "regions")]
+    if len(regs) != 1 or not isinstance(regs[0].value, ast.Dict):
+        raise Untranslatable("_calc_kernel: regions")
+    out.append("/-- %s:%d  regions[...] = (rows = earlier time t'', columns = later time t') -/\n"
+               "def kernel_regions : List (String × String) := %s\n"
+               % (rel, regs[0].lineno,
+                  _c07_lpairs([(k.value, ast.unparse(v)) for k, v in
+                               zip(regs[0].value.keys, regs[0].value.values)])))
+    rows = []
+    node = [s for s in fk.body if isinstance(s, ast.If) and ast.unparse(s.test).startswith("dagg == ")]
+    if len(node) != 1:
+        raise Untranslatable("_calc_kernel: dagg chain")
+    node = node[0]
+    while True:
+        dg = ast.unparse(node.test)[len("dagg == "):]
+        for s in node.body:
+            if not (isinstance(s, ast.Assign) and isinstance(s.targets[0], ast.Subscript)):
+                raise Untranslatable("_calc_kernel: kernel assignment")
+            rows.append((dg + " " + ast.unparse(s.targets[0]), ast.unparse(s.value)))
+        if len(node.orelse) == 1 and isinstance(node.orelse[0], ast.If):
+            node = node.orelse[0]
+        elif not node.orelse:
+            break
+        else:
+            raise Untranslatable("_calc_kernel: dagg chain tail")
+    out.append("/-- %s  how the kernels are assembled from `phase` per `dagg` -/\n"
+               "def kernel_table : List (String × String) := %s\n" % (rel, _c07_lpairs(rows)))
+    fin = [ast.unparse(h.value) for nm in ("re_kernel", "im_kernel") for h in src.assignment(fk, nm)]
+    out.append("def kernel_finish : List String := %s\n" % _c07_lstrs(fin))
+    nth = sorted(set(ast.unparse(s.value) for s in ast.walk(fk) if isinstance(s, ast.AugAssign)
+                     and isinstance(s.target, ast.Name) and s.target.id in ("n_1", "n_2")))
+    out.append("def kernel_thermal : List String := %s\n" % _c07_lstrs(nth))
+
+    # ---- occupation / correlation: what feeds them ------------------------------------
+    for meth in ("occupation", "correlation"):
+        fm = src.function(rel, "TwoTimeBathCorrelations." + meth)
+        gen = [ast.unparse(c) for c in ast.walk(fm) if isinstance(c, ast.Call)
+               and ast.unparse(c.func) == "self.generate_system_correlations"]
+        ker = [ast.unparse(c) for c in ast.walk(fm) if isinstance(c, ast.Call)
+               and ast.unparse(c.func) == "self._calc_kernel"]
+        used = sorted(set(ast.unparse(n) for n in ast.walk(fm) if isinstance(n, ast.BinOp)
+                          and "re_kernel" in ast.unparse(n) and "im_kernel" in ast.unparse(n)
+                          and isinstance(n.op, ast.Add)), key=len)[:1]
+        out.append("/-- %s:%d  %s: the calls that produce system correlations and kernels, and how "
+                   "they are combined -/\ndef %s_feeds : List String := %s\n"
+                   % (rel, fm.lineno, meth, meth, _c07_lstrs(gen + ker + used)))
+    return "\n".join(out)
+
+
+# ---------------------------------------------------------------------------
+# UniqueSums (C06): the vectors that close the north / west legs of the TEMPO, mean-field TEMPO
+# and PT-TEMPO networks, with and without degeneracy reduction
+# ---------------------------------------------------------------------------
+
+EXTRA_IMPORTS["UniqueSums"] = "import OQuPyVerif.Model.Degeneracy\n"
+
+
+@fragment("UniqueSums")
+def frag_uniquesums(src):
+    out = ["open OQuPyVerif.Degeneracy\n"]
+
+    def vec(node, where, leg):
+        """np.ones(<len>, dtype=float)"""
+        if isinstance(node, ast.ListComp):
+            node = node.elt
+        import re as _re
+        flat = "".join(ast.unparse(node).split())
+        m = _re.fullmatch(r"np\.bincount\((?:self\._bath|bath)\.(north|west)_degeneracy_map\)"
+                          r"(?:\.astype\(float\))?", flat)
+        if m:
+            # one entry per class holding the number of Liouville indices in the class
+            if m.group(1) != leg:
+                raise Untranslatable("%s: the %s vector is built from the %s map" % (where, leg, m.group(1)))
+            return '⟨.classSizes, .classCount "%s"⟩' % leg
+        if not (isinstance(node, ast.Call) and attr_chain(node.func) == ["np", "ones"]
+                and len(node.args) == 1
+                and all(k.arg == "dtype" and ast.unparse(k.value) == "float" for k in node.keywords)):
+            raise Untranslatable("%s: closing vector is not np.ones(n, dtype=float): %s"
+                                 % (where, ast.unparse(node)[:100]))
+        ln = "".join(ast.unparse(node.args[0]).split())
+        m = _re.fullmatch(r"np\.max\((?:self\._bath|bath)\.(north|west)_degeneracy_map\)\+1", ln)
+        if m:
+            if m.group(1) != leg:
+                raise Untranslatable("%s: the %s vector is sized by the %s map" % (where, leg, m.group(1)))
+            return '⟨.ones, .classCount "%s"⟩' % leg
+        if ln in ("dim**2", "self._dimension**2"):
+            return "⟨.ones, .full⟩"
+        raise Untranslatable("%s: cannot read the length %s" % (where, ln))
+
+    for rel, qual, pre, suffix in (
+            ("oqupy/tempo.py", "Tempo._prepare_backend", "tempo", ""),
+            ("oqupy/tempo.py", "MeanFieldTempo._prepare_backend", "mft", "_list"),
+            ("oqupy/pt_tempo.py", "PtTempo._init_pt_tempo_backend", "pt", "")):
+        fn = src.function(rel, qual)
+        ifs = [st for st in fn.body if isinstance(st, ast.If)
+               and ast.unparse(st.test) == "self._unique"]
+        if len(ifs) != 1:
+            raise Untranslatable("%s: expected one `if self._unique:` block" % qual)
+        names = ("sum_north" + suffix, "sum_west" + suffix)
+        # nothing else may touch the vectors
+        for n in ast.walk(fn):
+            if isinstance(n, (ast.Assign, ast.AugAssign)):
+                tg = n.targets if isinstance(n, ast.Assign) else [n.target]
+                for t in tg:
+                    base = t
+                    while isinstance(base, (ast.Subscript, ast.Attribute)):
+                        base = base.value
+                    if isinstance(base, ast.Name) and base.id in names:
+                        inside = any(n is m for b in (ifs[0].body, ifs[0].orelse)
+                                     for st in b for m in ast.walk(st))
+                        if not inside or not isinstance(t, ast.Name):
+                            raise Untranslatable("%s: %s is modified outside the unique/else "
+                                                 "blocks" % (qual, base.id))
+        for branch, tag in ((ifs[0].body, "unique"), (ifs[0].orelse, "full")):
+            found = {}
+            for st in branch:
+                if isinstance(st, ast.Assign) and len(st.targets) == 1 \
+                        and isinstance(st.targets[0], ast.Name) and st.targets[0].id in names:
+                    leg = "north" if "north" in st.targets[0].id else "west"
+                    if leg in found:
+                        raise Untranslatable("%s: %s assigned twice" % (qual, st.targets[0].id))
+                    found[leg] = (vec(st.value, qual, leg), st.lineno)
+            for leg in ("north", "west"):
+                if leg not in found:
+                    raise Untranslatable("%s: no sum_%s in the %s branch" % (qual, leg, tag))
+                out.append("/-- %s:%d  %s -/\ndef %s_sum_%s_%s : CloseVec := %s\n"
+                           % (rel, found[leg][1], qual, pre, leg, tag, found[leg][0]))
+        # the vectors are handed to the backend as they are
+        calls = [n for n in ast.walk(fn) if isinstance(n, ast.Call) and attr_chain(n.func)
+                 and attr_chain(n.func)[-1] in ("TempoBackend", "MeanFieldTempoBackend", "PtTempoBackend",
+                                                "backend_class")]
+        text = " ".join(ast.unparse(fn).split())
+        for nm in names:
+            uses = [n for n in ast.walk(fn) if isinstance(n, ast.Name) and n.id == nm
+                    and isinstance(n.ctx, ast.Load)]
+            if len(uses) != 1:
+                raise Untranslatable("%s: %s is read %d times (expected once: the backend "
+                                     "argument)" % (qual, nm, len(uses)))
     return "\n".join(out)
 
 
